@@ -10,6 +10,7 @@ mod scenarios;
 mod specgen;
 mod t_exit;
 mod t_fsm;
+mod t_isolate;
 mod t_stream;
 mod t_views;
 mod trials;
